@@ -23,7 +23,8 @@ structure ObsThread where
   locals : List Str := []
 
 structure Obs where
-  refs : Bool
+  refsLog : Bool    -- owners + log set (SetLockingState)
+  refs : Bool       -- thread pool set (SetThreadPool)
   threads : List ObsThread
   globals : List Str
 
@@ -49,7 +50,7 @@ def parseObs (s : String) : Option Obs :=
   match s.splitOn "~" with
   | [r, ts, gs] => do
     let ths ← if ts = "-" then some [] else (ts.splitOn "+").mapM parseThread
-    some { refs := r = "1", threads := ths, globals := ← parseNames gs }
+    some { refsLog := r.toList.head? = some '1', refs := r.toList.getLast? = some '1', threads := ths, globals := ← parseNames gs }
   | _ => none
 
 def sameSet (a b : List Str) : Bool := a.all b.contains && b.all a.contains
@@ -79,8 +80,9 @@ def sync (s : DbgState) (o : Obs) (initial : Bool := false) : Except String DbgS
     if (s.stacks.lookup t.tid).isNone then
       s ← apply! s (.start t.tid) s!"start {t.tid}"
       moved := true
-  if o.refs && !s.mutexLogSet then s ← apply! s .setRefs "setRefs"
-  if !o.refs && s.mutexLogSet then throw "BAD-EVENT references unset again"
+  if o.refsLog && !s.mutexLogSet then s ← apply! s .setLockingState "setLockingState"
+  if o.refs && !s.threadPoolSet then s ← apply! s .setRefs "setRefs"
+  if (!o.refs && s.threadPoolSet) || (!o.refsLog && s.mutexLogSet) then throw "BAD-EVENT references unset again"
   for t in o.threads do
     if !looksLike s t then
       let w ← (match t.w with
@@ -97,8 +99,10 @@ def sync (s : DbgState) (o : Obs) (initial : Bool := false) : Except String DbgS
         s ← apply! s (.advance p.1 0 .free) s!"advance {p.1} before finishing"
       s ← apply! s (.finish p.1) s!"finish {p.1}"
       moved := true
+  -- a thread that is not waiting may have assigned global variables without any other visible change
+  let someoneRuns := s.stacks.any fun p => !isSuspended s p.1
   if !sameSet s.globals o.globals then
-    if moved then s ← apply! s (.setGlobals o.globals) "setGlobals"
+    if moved || someoneRuns then s ← apply! s (.setGlobals o.globals) "setGlobals"
     else throw "BAD-GLOBALS"
   pure s
 
@@ -162,6 +166,8 @@ def runModel (pathOk : Bool) (gs : Bool) (o0 : Obs) (steps : List Step) : String
   let mut branch := "-"
   let mut k := 0
   for st in steps do
+    if st.line == str "!stopthreads" then
+      s := (applyEvent s .stopThreads).getD s
     if st.line.head? != some 33 then
       let env : Env := { eval := fun _ => st.bit, setPathOk := fun _ _ => pathOk }
       let (s', r) := handle env s st.line
@@ -209,6 +215,10 @@ def runConc : String := Id.run do
 def runCase (payload : String) : String :=
   match payload.splitOn " " with
   | "conc" :: _ => "R:" ++ runConc ++ "\tnt=1"
+  | "cyclic" :: _ =>
+    -- known finding: `describe` of a thread that sees a self-containing value never ends (fatal stack
+    -- overflow in scope.ToJSONObject's %#v fallback); the property demands an answer
+    "R:ok CRASH\tkf=describe-cyclic-value\tspec=R:ok ok\tnt=1"
   | "telnet" :: _ => "R:ok\tnt=1"   -- robustness kind (the CLI tool's server): no crash, no hang, every reply a JSON document
   | _ :: _ :: "?" :: _ => "RECORD-TIMEOUT"
   | scn :: gs :: o0 :: steps =>
